@@ -317,6 +317,53 @@ fn honest_sample(sim: &Sim, p: usize, rng: &mut Rng) -> (Proto, Bytes, Kind) {
     }
 }
 
+/// The next batch of authentic block filters, pushed unasked, in which the hash of one block is
+/// replaced by the hash of a side-branch block (the hashes in BlockFilters are not committed by
+/// the filter hashes). If that position matches a registered script, the planted hash ends up
+/// in the matched-blocks record next to real ones.
+fn plant_side_branch_block(sim: &mut Sim, p: usize, rng: &mut Rng) -> Vec<(Proto, Bytes, Tag)> {
+    let mut out = Vec::new();
+    let c = match sim.client.as_ref() {
+        Some(c) => c,
+        None => return out,
+    };
+    let view = sim.peers[p].view;
+    if sim.world.branches.len() < 2 {
+        return out;
+    }
+    let side = (view.branch + 1) % sim.world.branches.len();
+    let mf = c.storage.get_min_filtered_block_number();
+    let cfg = sim.peer_cfg(p);
+    let m = match server::block_filters(&sim.world, view, &cfg, mf + 1) {
+        Some(m) => m,
+        None => return out,
+    };
+    let mut hashes: Vec<Byte32> = m.block_hashes().into_iter().collect();
+    if hashes.is_empty() {
+        return out;
+    }
+    let i = rng.usize_below(hashes.len());
+    let n = mf + 1 + i as u64;
+    // the side-branch block of that height if there is one, otherwise the side tip
+    let planted = match sim.world.block_opt(side, n) {
+        Some(b) if sim.world.block_opt(view.branch, n).map(|x| x.hash()) != Some(b.hash()) => b.hash(),
+        _ => sim.world.block(side, sim.world.tip_number(side)).hash(),
+    };
+    if sim.world.number_on_branch(view.branch, &planted, view.height).is_some() {
+        return out; // not a side-branch block after all
+    }
+    hashes[i] = planted.clone();
+    sim.peers[p].planted.push(planted);
+    let m2 = m.as_builder().block_hashes(hashes.pack()).build();
+    out.push((
+        Proto::Filter,
+        server::filter_msg(m2).as_bytes(),
+        crafted(Kind::BlockFilters, "pushed authentic filters with the hash of a side-branch block planted"),
+    ));
+    sim.stat("fault.byz.planted_side_branch_block_hash");
+    out
+}
+
 /// A proven peer pushes (unasked) made-up filter hashes for the part of the current check-point
 /// interval that the client has not cached yet - stopping short of the next check point, where
 /// they would be compared with the finalized value - and then pushes block filters that are
@@ -410,6 +457,18 @@ pub fn inject(sim: &mut Sim, p: usize, spec: &InjectSpec) -> Vec<(Proto, Bytes, 
     let interval = sim.plan.knobs.check_point_interval;
     if spec.kind == 100 {
         return poison_cached_hashes(sim, p);
+    }
+    if spec.kind == 101 {
+        return plant_side_branch_block(sim, p, &mut rng);
+    }
+    if spec.kind == 102 {
+        // push the bodies of the planted blocks (self-consistent real blocks nobody proved)
+        for h in sim.peers[p].planted.clone() {
+            if let Some(m) = server::send_block(&sim.world, &h) {
+                out.push((Proto::Sync, m.as_bytes(), crafted(Kind::SendBlock, "pushed body of a planted side-branch block")));
+            }
+        }
+        return out;
     }
     match spec.kind % 8 {
         0 => {
